@@ -1,7 +1,6 @@
 import Juniper.Generated.SkeletonPar
-import Juniper.Proofs.SkeletonParDo
 /-!
-# Control-skeleton ties for `parallel.Do` / `DoContext` / `Map` / `MapContext`
+# Control-skeleton ties of the `parallel` package: where they live
 
 The LTSs `Juniper.Model.ParDo` and `Juniper.Model.ParMap` take guards, counter expressions, channel
 capacities and `select` tables from the regenerated facts (`Juniper.Gen.Par`), but the *order of the
@@ -13,17 +12,20 @@ the models were written against. Renaming a variable or rewriting a condition le
 added, removed or reordered statement, an added early return or fast path, a loop gaining a
 condition, a statement moving into or out of a goroutine makes the lemma of that body fail.
 
-The C13 soundness tactics `pardo_sound`, `wrapper_sound` (`Proofs/ParDoBasic.lean`, `Proofs/ParWrap.lean`;
-ties of `Do` / `DoContext` / `Map` / `MapContext` in `Proofs/SkeletonParDo.lean`) go `under` their ties, so
-every property theorem of C13 depends on them. The skeletons of `MapIterator` / `MapStream` /
-`mapIterator.Next` / `mapStream.Next` / `mapStream.Close` (C14, MapStream clauses of C08/C09) are pinned in
-`Proofs/ParMapTies.lean` (`IterSkeletons`, `StreamSkeletons`) and discharged by `decide` *inside* every
-property theorem of `Props/C14.lean` / `Props/C14Progress.lean` (`iter_ties` / `stream_ties`).
+No tie of the `parallel` package is a closed lemma any more. The skeletons of `Do` / `DoContext` / `Map` /
+`MapContext` (C13) are the fields `Code.skeleton` / `Wrapper.skeleton` of `Model/ParDo.lean` / `Model/ParWrap.lean`,
+hypotheses of `Code.Sound` / `Wrapper.Sound`, discharged by `decide` inside every property theorem of
+`Props/C13.lean` / `Props/C13Progress.lean` (`pardo_sound`, `wrapper_sound`). The skeletons of `MapIterator` /
+`MapStream` / `mapIterator.Next` / `mapStream.Next` / `mapStream.Close` (C14, MapStream clauses of C08/C09) are
+pinned in `Proofs/ParMapTies.lean` (`IterSkeletons`, `StreamSkeletons`) and discharged by `decide` *inside* every
+property theorem of `Props/C14.lean` / `Props/C14Progress.lean` (`iter_ties` / `stream_ties`). What is left here is
+`under`, used by `Proofs/SkeletonGroup.lean` (C17).
 -/
 namespace Juniper.Proofs.SkeletonPar
 open Juniper.Gen.SkeletonPar
 
--- `under` and the ties of `Do` / `DoContext` / `Map` / `MapContext` (C13) live in `Proofs/SkeletonParDo.lean`
--- (same namespace), so that a change confined to MapIterator / MapStream does not stop the C13 build.
+/-- `p`, claimed only for a source whose control skeleton is as the tie `k` says. Conclusions about
+the code "as it is in the source now" go through this lemma so that they depend on the tie. -/
+theorem under {k p : Prop} (_tie : k) (h : p) : p := h
 
 end Juniper.Proofs.SkeletonPar
